@@ -222,11 +222,36 @@ def run_ob(builder, ob, scratch, replay_dir, want_native=True):
         res["error"] = str(e)
         res["wall_s"] = time.time() - t0
         return res
-    cmd = cbmc_cmd(ob, gb)
-    res["cmd"] = " ".join(cmd[2:])
+    # solver ladder: a back end that hangs on ONE instance of a family it otherwise decides in seconds is a heuristic
+    # accident; before reporting "inconclusive" the same query is retried with another seed (z3) / another SAT solver.
+    # Every attempt decides the same formula; only a verdict counts, a timeout never does.
+    first = ob.backend
+    if first == "z3":
+        ladder = [("z3", 0, 0.1), ("z3", 1, 0.1), ("z3", 2, 0.2), ("z3", 3, 0.6)]
+    elif first in (None, "minisat"):
+        ladder = [(None, 0, 1.0), ("cadical", 0, 0.5)]
+    elif first == "cadical":
+        ladder = [("cadical", 0, 1.0), (None, 0, 0.5)]
+    else:
+        ladder = [(first, 0, 1.0)]
     outf = os.path.join(workdir, "cbmc.json")
-    with open(outf, "wb") as fo:
-        r = run(cmd, timeout=ob.timeout, mem_gb=ob.mem_gb, stdout=fo)
+    env = dict(os.environ)
+    env["PATH"] = os.path.join(VERIF, "tools", "shim") + os.pathsep + env.get("PATH", "")
+    res["attempts"] = []
+    for be, seed, share in ladder:
+        ob.backend = be
+        cmd = cbmc_cmd(ob, gb)
+        env["VERIF_Z3_SEED"] = str(seed)
+        with open(outf, "wb") as fo:
+            r = run(cmd, timeout=max(30, int(ob.timeout * share)), mem_gb=ob.mem_gb, stdout=fo, env=env)
+        res["attempts"].append(dict(backend=be or "minisat", seed=seed, wall_s=round(r["wall"], 1), timed_out=bool(r["timeout"])))
+        if not r["timeout"]:
+            break
+        if "symex_s" not in parse_cbmc_json(open(outf, "r", errors="replace").read())["stats"]:
+            break               # timed out before the formula was built: another solver would not help
+    ob.backend = first
+    res["cmd"] = " ".join(cmd[2:])
+    res["backend"] = (be or "minisat") + ((":seed%d" % seed) if be == "z3" and seed else "")
     text = open(outf, "r", errors="replace").read()
     if os.environ.get("VERIF_DEBUG"):
         os.makedirs("/tmp/verif-debug", exist_ok=True)
@@ -238,7 +263,7 @@ def run_ob(builder, ob, scratch, replay_dir, want_native=True):
         part = parse_cbmc_json(text)
         res["stats"] = part["stats"]
         phase = "symex" if "symex_s" not in part["stats"] else "solver"
-        res["error"] = "cbmc exceeded the wall-clock cap of %ds (in %s; last: %s)" % (ob.timeout, phase, " | ".join(part["messages"][-2:])[:200])
+        res["error"] = "cbmc exceeded the wall-clock cap of %ds on every solver attempt %s (in %s; last: %s)" % (ob.timeout, [(a["backend"], a["seed"]) for a in res["attempts"]], phase, " | ".join(part["messages"][-2:])[:200])
         res["wall_s"] = time.time() - t0
         _cleanup(workdir)
         return res
